@@ -170,6 +170,7 @@ def run(P, R, tier):
     zerosites_rule(P, R)
     perdl_rule(P, R)
     compunk_rule(P, R)
+    ladder_rule(P, R)
     R.rule("C20.psi", "every potential conversion is psi = 2 la ln10 R T/F (DDL, CCM) or psi = -la ln10 R T/F (CD-MUSIC planes), matching the selected model", minimum=12)
     R.rule("C20.sigma", "every charge-density conversion is sigma = q F/(A g) or q = sigma A g/F", minimum=15)
     S = RF.Rat.sym
@@ -638,3 +639,60 @@ def sites_rule(P, R):
                         file=f["file"], line=sk[1], function=f["q"])
         else:
             R.ok("C20.sites", "quick_setup:skip@%d" % sk[1], "skips no surface-site, exchange or aqueous master")
+
+
+def ladder_rule(P, R):
+    """The Borkovec-Westall diffuse-layer excess g is the integral over x from xd to 1; calc_all_g evaluates it as a sum of
+    qromb_midpnt(charge, a, b) over decades, with one hand-written block per order of magnitude of xd.  In every block the pieces must
+    tile the interval: the first starts at 1.0, each next one starts where the previous ended, the last ends at xd.  A missing or
+    repeated decade leaves the solver electroneutral (surface + diffuse layer) but moves sigma away from Gouy-Chapman at the reported
+    potential in exactly one window of potentials."""
+    RULE = "C20.ladder"
+    R.rule(RULE, "every block that sums qromb_midpnt pieces tiles [xd, 1] without gap or overlap", minimum=9)
+    n = 0
+    for k, g in sorted(P.functions.items(), key=lambda kv: kv[1]["q"]):
+        if not any(T.callee_name(c) == "qromb_midpnt" for c in T.calls(g["body"])):
+            continue
+        for comp in T.walk(g["body"]):
+            if comp[0] != "Compound":
+                continue
+            pieces = []
+            pure = True
+            for st in comp[2]:
+                if T.is_node(st) and st[0] == "Bin" and st[2] in ("=", "+=") and T.is_node(T.strip_casts(st[4])) and T.strip_casts(st[4])[0] == "Call" \
+                        and T.callee_name(T.strip_casts(st[4])) == "qromb_midpnt":
+                    c = T.strip_casts(st[4])
+                    ab = []
+                    for a in c[4][1:3]:
+                        a_ = T.strip_casts(a)
+                        v = T.lit_value(a_)
+                        if v is None and T.is_node(a_) and a_[0] == "Lit" and a_[2] == "float":
+                            v = float(str(a_[3]).rstrip("fFlL"))
+                        ab.append(float(v) if v is not None else " ".join(T.text(a).split()))
+                    pieces.append((st[1], st[2], ab[0], ab[1]))
+                else:
+                    pure = False
+            if not pieces or not pure:
+                continue
+            n += 1
+            inst = "%s@%d" % (g["q"].split("::")[-1], pieces[0][0])
+            bad = None
+            if pieces[0][1] != "=" or any(p_[1] != "+=" for p_ in pieces[1:]):
+                bad = "the first piece must assign and the others add"
+            elif pieces[0][2] != 1.0:
+                bad = "the first piece starts at %s, not at 1.0" % pieces[0][2]
+            else:
+                for a, b in zip(pieces, pieces[1:]):
+                    same = (a[3] == b[2]) or (isinstance(a[3], float) and isinstance(b[2], float) and abs(a[3] - b[2]) <= 1e-12 * abs(a[3]))
+                    if not same:
+                        bad = "piece at line %d ends at %s but the next starts at %s" % (a[0], a[3], b[2])
+                        break
+                if bad is None and isinstance(pieces[-1][3], float):
+                    bad = "the last piece ends at the constant %s, not at xd" % pieces[-1][3]
+            if bad:
+                R.violation(RULE, inst, "%s: the pieces of the diffuse-layer integral do not tile [xd, 1] (%s): part of the counter-ion excess is missing or counted twice in this "
+                            "window of potentials" % (g["q"], bad), file=g["file"], line=pieces[0][0], function=g["q"])
+            else:
+                R.ok(RULE, inst, "%d pieces tile [%s, 1]" % (len(pieces), pieces[-1][3]))
+    if n < 9:
+        R.anchor_missing(RULE, "only %d blocks of qromb_midpnt pieces found" % n)
